@@ -68,3 +68,10 @@ CHECKS = {
             "quick": T(8, 2, 300), "thorough": T(14, 1, 1500),
             "assumptions": ["reference reassembler written from RFC 6347 4.2.3; fragments form a partition (overlapping re-partitions are out of the quantifier)"]},
 }
+
+# The quick tier is cheap on 16 cores (virtual clock): scale the sampled case counts up so that a
+# quick run explores several times the base count. An explicit VERIF_SCALE in the environment wins.
+QUICK_SCALE = {"C01": 4, "C03": 4, "C05": 3, "C06": 3, "C07": 4, "C08": 4, "C09": 4, "C10": 4, "C11": 4, "C12": 3,
+               "C13": 4, "C14": 4, "C15": 4, "C17": 4, "C18": 3, "C19": 3, "C20": 4, "C04": 2}
+for _id, _k in QUICK_SCALE.items():
+    CHECKS[_id]["quick"].setdefault("env", {}).setdefault("VERIF_SCALE", str(_k))
